@@ -533,3 +533,13 @@ Proof.
   destruct (existsb (tok_eqb a) (b_variant b)) eqn:E; auto. exfalso.
   apply existsb_eqb_in in E. eapply alias_variant_partition; eauto.
 Qed.
+
+(* ---------------------------------------------------------------- the parameters of an option end at the next '-' argument *)
+Lemma truncated_then_flag_rejected pre a args flag post nm :
+  ~ In a pre -> Forall (fun x => is_dash x = false) args -> is_dash flag = true -> List.length args < nm ->
+  option3 (pre ++ a :: args ++ flag :: post) a nm = Exit 1%Z.
+Proof.
+  intros Ha Hargs Hflag Hlen. unfold option3. rewrite find_argument_app_here by auto.
+  rewrite num_args_cut by auto. replace (List.length args <? nm) with true by (symmetry; apply Nat.ltb_lt; exact Hlen).
+  reflexivity.
+Qed.
